@@ -42,6 +42,21 @@ CHECKS = {
             "no-length constructor for k = 1..300 (which reaches the float-logarithm region).",
             "Trusts the reference model in props/c18.py; negative indices and item assignment are outside the property.",
             "DESIGN.md §3 C18"),
+    "C19": ("exploration", "history + executable model: seeded operation sequences on the real SPFLBArray vs a reference list, directory-listing and open-audit monitors",
+            "Thousands of seeded sequences (array_len 1..40, item_size 1..9, items_per_file 1..len+2, 5..40 ops incl. "
+            "+- indices, arbitrary slices, deletions, clear, iteration, membership, close+open, post-close ops, "
+            "oversized / non-bytes items, failing value iterators in the middle of a slice assignment) are applied to "
+            "the real array and to a list model; every observation is compared, a full read after every failing "
+            "operation, the directory is listed after every operation and write-opens outside it are audited.",
+            "Trusts the list model and generator in props/c19.py; crash consistency is not part of this property.",
+            "DESIGN.md §3 C19"),
+    "C20": ("exploration", "history + executable model: seeded operation sequences on the real PickledDict / DBMDict vs a reference dict",
+            "Seeded sequences over a 6-key universe are applied to the real classes and to a dict model with full "
+            "comparisons after every refusal, clear, sync and close+open; from_dict aliasing, post-close operations "
+            "and path refusals are checked for PickledDict; DBMDict is checked within one open session (the part that "
+            "works on dbm.dumb).",
+            "Trusts the dict model in props/c20.py; DBMDict reopen is outside the property on this image.",
+            "DESIGN.md §3 C20"),
 }
 
 NOT_YET = {}
